@@ -485,7 +485,12 @@ def run_standins(pid, tier='quick'):
             if b.returncode == 0:
                 env = dict(env, VERIF_TFTPD=os.path.join(tdir, 'release', 'tftpd'), VERIF_TFTPC=os.path.join(tdir, 'release', 'tftpc'))
         cmd = ['cargo', 'run', '--offline', '-q', '--release', '--bin', x['bin']] + (['--'] + x['args'][tier] if x.get('args') else [])
-        p = subprocess.run(cmd, cwd=rdir, env=env, stdout=subprocess.PIPE, stderr=subprocess.STDOUT, text=True)
+        try:
+            p = subprocess.run(cmd, cwd=rdir, env=env, stdout=subprocess.PIPE, stderr=subprocess.STDOUT, text=True, timeout=1200)
+        except subprocess.TimeoutExpired:
+            res.append({'name': x['name'], 'label': 'BOUNDED (not a proof)', 'bound': x['bound'], 'exit': -1,
+                        'error': 'the bounded program did not finish within 20 minutes: no verdict from it'})
+            continue
         out = p.stdout.strip().split('\n')
         if p.returncode == 1 and x.get('confirm'):
             # a stand-in that uses real sockets and timers: a counterexample counts only if it is reproduced
